@@ -93,6 +93,17 @@ def _child(argv, cwd, env, out_path, err_path, stdin_path, opts):
 
         sys.addaudithook(hook)
 
+    if opts.get("proc"):
+        # legitimate but unusual process surroundings: pinned to one CPU (taskset / cpuset / container), tight umask
+        pr = opts["proc"]
+        if pr.get("one_cpu"):
+            try:
+                os.sched_setaffinity(0, {sorted(os.sched_getaffinity(0))[pr.get("cpu_index", 0) % len(os.sched_getaffinity(0))]})
+            except (OSError, AttributeError):
+                pass
+        if pr.get("umask") is not None:
+            os.umask(pr["umask"])
+
     if opts.get("crash_on_audit"):
         # deterministic crash point: the process dies (as if SIGKILLed) when the n-th audit event out of a set is
         # raised, i.e. BEFORE that operation happens and after the n-1 earlier ones have completed
